@@ -74,8 +74,7 @@ structure GState where
   gid : String
   st : St                    -- model
   tr : Track := {}           -- spec
-  levels : List Nat := []    -- spec: levels so far, newest first
-  flapping : Bool := false   -- spec: flapping flag
+  ft : FlapTrack := {}       -- spec: levels so far (newest first) and flapping flag
   lastEv : Option Ev := none -- model: the last event delivered for the ID (= its event state in the topic)
   restorePending : Bool := false  -- the task was restarted: the next message of the ID creates its state anew
 
@@ -151,7 +150,8 @@ def noteTrig (d : DS) (s : St) : DS :=
 
 /-! ### one op on model and spec -/
 
-def flapFn (conf : Conf) (k : FlapConsts) : FlapFn := goFlap k conf.low conf.high
+def decideFn (conf : Conf) (k : FlapConsts) : FlapDecide := floatDecide k conf.low conf.high
+def flapFn (conf : Conf) (k : FlapConsts) : FlapFn := goFlap (Gen.flapStartOffset.getD 0) k conf.low conf.high
 
 /-- `NewGroup` after a restart: `restoreEventState(id, first.Time(), …)` from the ID's event state in the topic.
 The spec side is untouched: for the property a restart is not an event of the ID's history. -/
@@ -162,11 +162,6 @@ def restoreIfPending (d : DS) (k : FlapConsts) (g : GState) (t : Int) : DS × GS
     | none => (0, 0, 0)
   let st := restoreEventState d.conf.cfg (flapFn d.conf k) t level stored dur
   (addBr d (if level != 0 then "restore-non-ok" else "restore-ok"), { g with st := st, restorePending := false })
-
-def specFlag (conf : Conf) (k : FlapConsts) (g : GState) (cur : Nat) : Bool × List Nat :=
-  let levels := cur :: g.levels
-  if conf.cfg.useFlap then (specFlap k conf.low conf.high conf.cfg.history g.flapping levels, levels.take conf.cfg.history)
-  else (false, levels.take conf.cfg.history)
 
 def doPoint (d : DS) (k : FlapConsts) (gid : String) (p : Pt) : DS := Id.run do
   let c := d.conf.cfg
@@ -192,12 +187,13 @@ def doPoint (d : DS) (k : FlapConsts) (gid : String) (p : Pt) : DS := Id.run do
   | none => d := { d with quiet := d.quiet + 1 }
   -- spec
   let cur := specLevel c p g.tr.level
-  let (fl, levels) := specFlag d.conf k g cur
+  let ft' := flapAdvance c (decideFn d.conf k) g.ft cur
+  let fl := c.useFlap && ft'.flapping
   let (tr', se) := specPoint c g.tr p fl
   match se with
   | some ev => d := { d with specOut := d.specOut.push { id := alertID gid, ev := ev } }
   | none => pure ()
-  return d.setGroup { g with st := st', tr := tr', levels := levels, flapping := fl, lastEv := e.orElse (fun _ => g.lastEv) }
+  return d.setGroup { g with st := st', tr := tr', ft := { ft' with recent := ft'.recent.take c.history }, lastEv := e.orElse (fun _ => g.lastEv) }
 
 def doBatch (d : DS) (k : FlapConsts) (gid : String) (b : Batch) : DS := Id.run do
   let c := d.conf.cfg
@@ -237,12 +233,13 @@ def doBatch (d : DS) (k : FlapConsts) (gid : String) (b : Batch) : DS := Id.run 
   if b.pts.isEmpty then return d.setGroup { g with st := st' }
   let g := { g with lastEv := e.orElse (fun _ => g.lastEv) }
   let cur := batchLevel c g.tr.level b.pts
-  let (fl, levels) := specFlag d.conf k g cur
+  let ft' := flapAdvance c (decideFn d.conf k) g.ft cur
+  let fl := c.useFlap && ft'.flapping
   let (tr', se) := specBatch c g.tr b fl
   match se with
   | some ev => d := { d with specOut := d.specOut.push { id := alertID gid, ev := ev, tmax := b.tmax, npts := b.pts.length } }
   | none => pure ()
-  return d.setGroup { g with st := st', tr := tr', levels := levels, flapping := fl }
+  return d.setGroup { g with st := st', tr := tr', ft := { ft' with recent := ft'.recent.take c.history } }
 
 /-! ### comparing with what the implementation did -/
 
@@ -282,6 +279,7 @@ def classify (nTail : Nat) (expected observed : List String) : String × String 
 
 def judge (_id : String) (lines : Array String) : Verdict := Id.run do
   let some k := flapConsts? | return .badop "flapping constants were not extracted from alert.go (Kap.Gen.C01)"
+  if Gen.flapStartOffset.isNone then return .badop "the loop of percentChange was not recognised (Kap.Gen.C01)"
   if effHistory none < 2 then return .badop "history default / clamp were not extracted (Kap.Gen.C01)"
   let mut d : DS := {}
   for l in lines do
